@@ -9,9 +9,11 @@ package c09
 
 import (
 	"encoding/json"
+	"errors"
 	"fmt"
 	"os"
 	"sort"
+	"strings"
 	"sync"
 	"sync/atomic"
 	"testing"
@@ -284,6 +286,84 @@ func TestC09(t *testing.T) {
 		}
 	})
 
+	// the same clause ("context done at the call: changes nothing, fails with cancelled / timeout") with the main path
+	// argument of every entry point replaced by a path of another shape: a special case taken before the context is looked
+	// at (a link handled as a link, a missing path reported as such, ...) must not escape it
+	type vcombo struct {
+		sc      scenario
+		backend string
+	}
+	var vcombos []vcombo
+	for i := range scs {
+		if strings.Contains(scs[i].Name, "/") || scs[i].ArgShape != "" {
+			continue
+		}
+		for _, sh := range argShapes {
+			for _, be := range []string{"mem", "os"} {
+				if strings.Contains(sh, "link") && be != "os" {
+					continue
+				}
+				v := scs[i]
+				if v.Method == "" {
+					v.Method = v.Name
+				}
+				v.Name, v.ArgShape = scs[i].Name+"/arg="+sh, sh
+				vcombos = append(vcombos, vcombo{v, be})
+			}
+		}
+	}
+	var bShape, bShapeSkipped, bShapeExcused atomic.Int64
+	parallel(len(vcombos), func(i int) {
+		c := vcombos[i]
+		// Weakest reading for these shapes: a call that, with a live context, refuses its arguments (kind K) or finds nothing
+		// to do (nil, nothing changed, no more than an existence test) may answer the same with a context that is
+		// already done; anything else must fail with cancelled / timeout. "Changes nothing" is demanded in every case.
+		live, e := execRun(&c.sc, runSpec{Scenario: c.sc.Name, Tree: "12", Backend: c.backend, Flavour: flCancel})
+		if errors.Is(e, errNoPathArgument) {
+			bShapeSkipped.Add(1)
+			return
+		}
+		if e != nil {
+			rep.EngineError("%s: %v", c.sc.Name, e)
+			return
+		}
+		excused := func(r runResult) bool {
+			switch {
+			case live.panicked != "":
+				return false
+			case live.err != nil && r.err != nil:
+				return kindName(live.err) == kindName(r.err)
+			case live.err == nil && r.err == nil:
+				return live.mutating == 0 && live.total <= 6
+			}
+			return false
+		}
+		for _, fl := range []string{flCancel, flDeadline} {
+			spec := runSpec{Scenario: c.sc.Name, Tree: "12", Backend: c.backend, Flavour: fl, Pre: true}
+			r, e := execRun(&c.sc, spec)
+			if errors.Is(e, errNoPathArgument) {
+				bShapeSkipped.Add(1)
+				return
+			}
+			if e != nil {
+				rep.EngineError("%s: %v", c.sc.Name, e)
+				continue
+			}
+			bEvals.Add(1)
+			bShape.Add(1)
+			bmu.Lock()
+			bOutcomes[c.sc.Method+":pre:"+kindName(r.err)]++
+			bmu.Unlock()
+			for _, cl := range judgeRun(&c.sc, spec, r, 0) {
+				if strings.HasPrefix(cl, "context-done-at-call:kind=") && excused(r) {
+					bShapeExcused.Add(1)
+					continue
+				}
+				viol("b:"+c.sc.Name+":"+cl, map[string]any{"part": "b", "run": spec, "got_kind": kindName(r.err), "got_err": fmt.Sprint(r.err), "with_a_live_context": fmt.Sprint(live.err),
+					"backend_operations": r.total, "mutating_operations": r.mutating, "tree_before": head(r.before, 40), "tree_after": head(r.afterDmp, 40)}, spec.rank()+1)
+			}
+		}
+	})
 	lap("part_b_reference_and_done_at_call")
 	// mid-run: the context ends right after backend operation k
 	type mjob struct {
@@ -405,6 +485,8 @@ func TestC09(t *testing.T) {
 	if thorough {
 		big += ",2^20-1,2^20+1"
 	}
+	rep.Coverage["part_b_argument_shapes"] = map[string]any{"shapes": argShapes, "context_done_at_call_runs": bShape.Load(), "entry_points_without_a_main_path_argument": bShapeSkipped.Load(),
+		"kind_clause_excused": bShapeExcused.Load(), "reading": "with the main path argument replaced (file for tree, missing, empty directory, links): nothing changes; the kind must be cancelled/timeout unless the same call with a live context refuses its arguments with that same kind, or finds nothing to do (nil, no mutating operation, <= 6 backend operations)"}
 	rep.Coverage["bound"] = map[string]any{
 		"a_source_lengths": fmt.Sprintf("0..%d and %s", smallMaxLen(thorough), big),
 		"a_families": "lengths 0..max: A1 every script of <= 4 chunks from {0,1,2,rest} x healthy reader (EOF alone / with the last data) x healthy writer (with/without ReaderFrom); " +
@@ -479,6 +561,28 @@ func runReplay(rep *ev.Reporter, path string, byName map[string]*scenario, viol 
 		fileLimitCases(viol)
 	case "b":
 		sc := byName[part.Run.Scenario]
+		if i := strings.Index(part.Run.Scenario, "/arg="); sc == nil && i > 0 && byName[part.Run.Scenario[:i]] != nil {
+			// an argument-shape variant of an entry point: only ever run with the context done at the call
+			v := *byName[part.Run.Scenario[:i]]
+			if v.Method == "" {
+				v.Method = v.Name
+			}
+			v.Name, v.ArgShape = part.Run.Scenario, part.Run.Scenario[i+5:]
+			live, e0 := execRun(&v, runSpec{Scenario: v.Name, Tree: part.Run.Tree, Backend: part.Run.Backend, Flavour: flCancel})
+			r, e := execRun(&v, *part.Run)
+			if e != nil || e0 != nil {
+				rep.EngineError("%v %v", e0, e)
+				return
+			}
+			fmt.Printf("REPLAY part=b run=%+v err=%v kind=%s tree-changed=%v; with a live context: err=%v operations=%d mutating=%d\n", *part.Run, r.err, kindName(r.err), r.before != r.afterDmp, live.err, live.total, live.mutating)
+			for _, cl := range judgeRun(&v, *part.Run, r, 0) {
+				if strings.HasPrefix(cl, "context-done-at-call:kind=") && ((live.err != nil && r.err != nil && kindName(live.err) == kindName(r.err)) || (live.err == nil && r.err == nil && live.mutating == 0 && live.total <= 6)) {
+					continue
+				}
+				viol("b:"+v.Name+":"+cl, map[string]any{"part": "b", "run": part.Run}, 0)
+			}
+			return
+		}
 		if sc == nil {
 			rep.EngineError("unknown entry point %q in the replay", part.Run.Scenario)
 			return
